@@ -119,10 +119,74 @@ func main(a uint8, b [8200]uint8) (uint8, uint8, uint8) {
 	}},
 }
 
+// c05StoreProgram draws a program of the "store" family: a byte/word array
+// argument and a local struct receive 1-4 stores whose value is a literal (kept
+// by the compiler in 32 or 64 wires whatever the slot width), the other party's
+// scalar, another element or a small expression - narrower, equal to and wider
+// than the slot - and array and fields are returned whole, so every bit next to
+// each stored slot is observed.
+func c05StoreProgram(r *vrt.Rng) (src string, gIn, eIn []string) {
+	W := vrt.Pick(r, []int{8, 8, 16, 16, 32, 64})
+	K := r.Range(2, 8)
+	fw := []int{vrt.Pick(r, []int{3, 7, 8, 16, 24}), vrt.Pick(r, []int{8, 16, 31, 32, 33}), vrt.Pick(r, []int{1, 8, 16, 64})}
+	var b strings.Builder
+	fmt.Fprintf(&b, "package main\n\ntype S struct {\n\tf0 uint%d\n\tf1 uint%d\n\tf2 uint%d\n}\n\n", fw[0], fw[1], fw[2])
+	fmt.Fprintf(&b, "func main(a [%d]uint%d, b uint%d) ([%d]uint%d, uint%d, uint%d, uint%d) {\n", K, W, W, K, W, fw[0], fw[1], fw[2])
+	fmt.Fprintf(&b, "\tvar s S\n\ts.f0 = uint%d(a[0])\n\ts.f1 = uint%d(b)\n\ts.f2 = uint%d(a[%d])\n", fw[0], fw[1], fw[2], K-1)
+	lit := func(w int) string {
+		bits := min(w, 62)
+		if r.Intn(4) == 0 {
+			bits = r.Range(1, bits)
+		}
+		v := r.Big(bits)
+		if r.Bool() {
+			v.SetBit(v, bits-1, 1)
+		}
+		if r.Bool() {
+			return "0x" + v.Text(16)
+		}
+		return v.String()
+	}
+	for n := r.Range(1, 4); n > 0; n-- {
+		var tgt string
+		var w int
+		if r.Intn(3) != 0 {
+			i := r.Intn(K)
+			if K > 1 && r.Bool() {
+				i = r.Intn(K - 1) // not the last slot
+			}
+			tgt, w = fmt.Sprintf("a[%d]", i), W
+		} else {
+			f := r.Intn(3)
+			tgt, w = fmt.Sprintf("s.f%d", f), fw[f]
+		}
+		var val string
+		switch r.Intn(5) {
+		case 0, 1:
+			val = lit(w)
+		case 2:
+			val = fmt.Sprintf("uint%d(b)", w)
+		case 3:
+			val = fmt.Sprintf("uint%d(a[%d]) + %s", w, r.Intn(K), lit(min(w, 8)))
+		default:
+			val = fmt.Sprintf("uint%d(a[%d] ^ b)", w, r.Intn(K))
+		}
+		fmt.Fprintf(&b, "\t%s = %s\n", tgt, val)
+	}
+	b.WriteString("\treturn a, s.f0, s.f1, s.f2\n}\n")
+	av := r.Bytes(K * W / 8)
+	for i := range av {
+		if av[i] == 0 {
+			av[i] = 0xa5 // neighbours of a stored slot hold non-zero data
+		}
+	}
+	return b.String(), []string{"0x" + fmt.Sprintf("%x", av)}, []string{"0x" + r.Big(W).Text(16)}
+}
+
 func init() {
 	vrt.Register(&vrt.Prop{
 		ID: "C05", Level: "exploration",
-		Rule: "case = a two-party program (generated with aliasing bias: constant shifts, casts, array element and struct field updates, arrays/structs as arguments; or a fixture with unsized main(a, b uint) / []byte signatures instantiated from the exchanged input sizes, one keeping > 65535 wire ids live, one whose evaluator input wires straddle wire id 65536) run in streaming mode (Compiler.Stream against circuit.StreamEvaluator over a fragmenting tap; OT in {CO, COT}) on 1-3 boundary/random input pairs. " +
+		Rule: "case = a two-party program (generated with aliasing bias: constant shifts, casts, array element and struct field updates, arrays/structs as arguments; or a PRNG-parameterised store-family program: literals, scalars and expressions narrower/equal/wider than the slot stored into array elements and struct fields, whole array and fields returned; or a fixture with unsized main(a, b uint) / []byte signatures instantiated from the exchanged input sizes, one keeping > 65535 wire ids live, one whose evaluator input wires straddle wire id 65536) run in streaming mode (Compiler.Stream against circuit.StreamEvaluator over a fragmenting tap; OT in {CO, COT}) on 1-3 boundary/random input pairs. " +
 			"Oracle: no error, no stall, both parties' values identical and equal to the reference evaluation of the whole compiled circuit on the same inputs, output types and sizes identical to the circuit's. Distinct = hash(program, inputs).",
 		Assumptions: []string{"refc on the whole compiled circuit is the specification (C03 relates that circuit to the program)"},
 		NumCases: func(t string) int {
@@ -155,6 +219,10 @@ func runC05(cs *vrt.Case) {
 		f := c05Fixtures[k]
 		src, what = f.src, "fixture "+f.name
 		gIn, eIn = f.in(r)
+		npairs = 1
+	} else if k == 5 || k == 6 {
+		src, gIn, eIn = c05StoreProgram(r)
+		what = "store family"
 		npairs = 1
 	} else {
 		prog = mpclgen.Generate(r, c05GenCfg)
